@@ -41,6 +41,35 @@ def nontrivial(case):
 RULE = ("each case multiplies two operands and reports the work counter; non-trivial: every case "
         "(operands have >= 1 digit and the count is compared exactly); distinct: distinct case lines")
 
+KEY_FILES = ["base/Base.v", "base/X86.v", "model/AddSub.v", "model/ShiftCore.v", "model/Div.v", "model/Mul.v",
+             "model/MulCost.v", "gen/Extracted.v", "slow/MulCostBank.v", "slow/MulCostBankBig.v"]
+
+def bank_theorem(ctx, name, timeout):
+    """Compile coq/slow/<name>.v (kernel VM evaluation of the bank) unless an up-to-date .vo exists;
+    the output of its `Print Assumptions` must be closed."""
+    import hashlib
+    coq = os.path.join(ctx["root"], "coq")
+    h = hashlib.sha256()
+    for f in KEY_FILES:
+        try:
+            h.update(open(os.path.join(coq, f), "rb").read())
+        except OSError:
+            h.update(b"missing:" + f.encode())
+    key = h.hexdigest()
+    keyf = os.path.join(coq, "slow", name + ".key.aux")
+    vo = os.path.join(coq, "slow", name + ".vo")
+    if os.path.exists(vo) and os.path.exists(keyf) and open(keyf).read().strip() == key:
+        return "checked (cached %s)" % key[:12]
+    if os.path.exists(keyf):
+        os.remove(keyf)
+    rc, out = ctx["run"]("coqc -noglob $(grep -E '^-Q' _CoqProject | tr '\\n' ' ') -Q slow BigNum slow/%s.v" % name,
+                         cwd=coq, timeout=timeout, shell=True)
+    if rc == 0 and "Closed under the global context" in out and "Axioms:" not in out:
+        with open(keyf, "w") as f:
+            f.write(key)
+        return "checked %s" % key[:12]
+    return "FAILED rc=%s %s" % (rc, out[-300:])
+
 def extra_checks(ctx):
     """Decide the three cost criteria on the implementation's own counter over the whole bank."""
     cov, broken, viol = {}, [], []
@@ -73,14 +102,17 @@ def extra_checks(ctx):
     for (a, b), c in cost.items():
         if c > a * b:
             viol.append({"kind": "cost-schoolbook", "note": "cost(%dx%d)=%d > %d" % (a, b, c, a * b), "case": "h.bank_cost n:%d n:%d" % (a, b)})
-    # thorough tier: the slow part of the in-Coq bank (2048, 4096, 1024x2047/2048, 256x16384)
-    if ctx["tier"] == "thorough":
-        rc, out = ctx["run"]("coqc -noglob $(grep -E '^-Q' _CoqProject | tr '\\n' ' ') -Q slow BigNum slow/MulCostBankBig.v",
-                             cwd=os.path.join(ctx["root"], "coq"), timeout=5400, shell=True)
-        cov["bank_big_theorem"] = "checked" if rc == 0 else "FAILED"
-        if rc != 0:
+    # the in-Coq bank (coq/slow/, outside _CoqProject): quick part in every tier (cached), big part
+    # in the thorough tier
+    st = bank_theorem(ctx, "MulCostBank", 900)
+    cov["bank_quick_theorem"] = st
+    if st.startswith("FAILED"):
+        broken.append("obligation:bank_quick (slow/MulCostBank.v)")
+    elif ctx["tier"] == "thorough":
+        st2 = bank_theorem(ctx, "MulCostBankBig", 5400)
+        cov["bank_big_theorem"] = st2
+        if st2.startswith("FAILED"):
             broken.append("obligation:bank_big (slow/MulCostBankBig.v)")
-            cov["bank_big_log"] = out[-600:]
     else:
         cov["bank_big_theorem"] = "not built in the quick tier (coq/slow/MulCostBankBig.v, ~12 min)"
     return {"coverage": cov, "broken": broken, "violations": viol}
